@@ -3,7 +3,7 @@
    QUtil:: counterparts (QUtil.cc), is_delimiter, Tokenizer::isSpace and Tokenizer::isDelimiter (QPDFTokenizer.cc) equal
    the hand-written definitions of Lex/TokModel.v on all 256 values of `char` (a byte b is seen by the C++ as the signed
    char lf_char_of_byte b).  Each statement is decided by a 256-case sweep (byte_sweep). *)
-From QV Require Import Base.Bytes Lex.TokModel.
+From QV Require Import Base.Bytes Lex.TokModel Obj.Unparse.
 From Coq Require Import Lia.
 From QV Require Import Base.LeafSem Base.LeafSemFacts Gen.Leaf.
 Local Open Scope N_scope.
@@ -55,6 +55,12 @@ Proof. leaf_sweep (fun b => Bool.eqb (lf_Tokenizer_isDelimiter (lf_char_of_byte 
 (* Tokenizer::isSpace *)
 Lemma Tokenizer_isSpace_src_lemma : forall b, b < 256 -> lf_Tokenizer_isSpace (lf_char_of_byte b) = tk_is_space b.
 Proof. leaf_sweep (fun b => Bool.eqb (lf_Tokenizer_isSpace (lf_char_of_byte b)) (tk_is_space b)). Qed.
+
+(* is_iso_latin1_printable (static, QPDF_String.cc), the test the string printer of Obj/Unparse.v is written with:
+   (ch >= 32 && ch <= 126) on the signed char, or the unsigned reading >= 160 *)
+Lemma is_iso_latin1_printable_src_lemma : forall b, b < 256 ->
+  lf_is_iso_latin1_printable (lf_char_of_byte b) = is_iso_latin1_printable b.
+Proof. leaf_sweep (fun b => Bool.eqb (lf_is_iso_latin1_printable (lf_char_of_byte b)) (is_iso_latin1_printable b)). Qed.
 
 (* every char is the signed reading of exactly one byte: the statements above cover the whole parameter range *)
 Lemma char_range_covered_lemma : forall c, (-128 <= c < 128)%Z -> exists b, b < 256 /\ lf_char_of_byte b = c.
